@@ -22,9 +22,8 @@ import progs  # noqa: E402
 
 # the first program is built alone and warms the private llgo cache (runtime, sync, sync/atomic and the
 # other overlaid packages); reflect and fmt programs (minutes to build) are left to the thorough tier
-QUICK = [("sync", 4), ("facade", None), ("sync", None), ("skipstd", None), ("wide", 8), ("plain", 2),
-         ("facade", None), ("plain", None)]
-THOROUGH_EXTRA = [("facade", None)] * 3 + [("reflect", 4), ("fmt", None), ("sync", 8), ("wide", 7), ("skipstd", 5)] + [("plain", None)] * 12 + [("wide", None)] * 6
+QUICK = [("sync", 4), ("facade", None), ("skipstd", None), ("wide", 8), ("embed", 2), ("rtstate", None)]
+THOROUGH_EXTRA = [("sync", None), ("plain", 2), ("plain", None)] + [("facade", None)] * 4 + [("embed", None)] + [("rtstate", None)] * 2 + [("plain", None)] + [("reflect", 4), ("fmt", None), ("sync", 8), ("wide", 7), ("skipstd", 5)] + [("plain", None)] * 12 + [("wide", None)] * 6
 
 
 # ---------------------------------------------------------------- IR skeletons
@@ -82,8 +81,19 @@ def init_skeleton(fname, lines):
         return None, "branch does not separate return from body"
     ret_when = (t == rets[0])
     body = blocks[f if ret_when else t]
-    if not body or body[0] != "store i1 true, ptr %s, align 1" % guard:
+    gstore = "store i1 true, ptr %s, align 1" % guard
+    # go:embed variables are filled in a prologue in front of the guard store (cl applyEmbedInits);
+    # such a prologue must not call anything of the program except runtime helpers
+    gi = body.index(gstore) if gstore in body else -1
+    if gi < 0:
+        return None, "guard store is not in the body block"
+    for i in body[:gi]:
+        mcall = re.search(r'call \S+ @("[^"]+"|[^\s(]+)\(', i)
+        if mcall and "/runtime/internal/runtime." not in mcall.group(1) and not mcall.group(1).startswith("llvm."):
+            return None, "guard store is not the first instruction of the body block (preceded by %s)" % mcall.group(1)
+    if gi > 0 and not any(re.match(r"store .*, ptr @", i) for i in body[:gi]):
         return None, "guard store is not the first instruction of the body block"
+    body = body[gi:]
     nstores = sum(1 for b in order for i in blocks[b] if re.match(r"store i1 \w+, ptr %s," % re.escape(guard), i))
     if nstores != 1:
         return None, "guard stored %d times" % nstores
@@ -100,11 +110,11 @@ def init_skeleton(fname, lines):
         else:
             break
     # every path from the body reaches the return block: all other blocks end in br/ret
-    later_init_calls = [i for b in order for i in blocks[b][(len(calls) + 1 if blocks[b] is body else 0):]
+    later_init_calls = [i for b in order for i in (body[len(calls) + 1:] if b == (f if ret_when else t) else blocks[b])
                         if re.fullmatch(r'call void @("[^"]+\.init(\$hasPatch)?"|[^\s("]+\.init)\(\)', i)]
     if later_init_calls:
         return None, "package init call after the body started: %s" % later_init_calls[0]
-    return {"ret_when": ret_when, "calls": calls}, None
+    return {"ret_when": ret_when, "calls": calls, "prologue": gi, "body": body}, None
 
 
 def coq_bool(b):
@@ -293,6 +303,7 @@ def run(ck):
 
     # ---------- per program: oracle, model prediction, skeletons ----------
     e2e_terms, e2e_raw, go_terms, go_raw, sk_terms, sk_raw = [], [], [], [], [], []
+    rt_terms, rt_raw = [], []
     classes = collections.Counter()
     nlines = 0
     differs_from_go_order = 0
@@ -312,11 +323,19 @@ def run(ck):
         main_id = ids["verifprog"]
         rcl, _, se_l = r["llgo"]
         rcg, _, se_g = r["go"]
+        # observations of runtime state (mode rtstate) are kept apart from the order trace
+        obs_l = [l.split() for l in se_l.splitlines() if l.startswith("OBS ")]
+        obs_g = [l.split() for l in se_g.splitlines() if l.startswith("OBS ")]
+        emb_l = sorted(l for l in se_l.splitlines() if l.startswith("EMB "))
+        emb_g = sorted(l for l in se_g.splitlines() if l.startswith("EMB "))
+        full_l, full_g = se_l.splitlines(), se_g.splitlines()
+        se_l = "\n".join(l for l in full_l if not l.startswith(("OBS ", "EMB ")))
+        se_g = "\n".join(l for l in full_g if not l.startswith(("OBS ", "EMB ")))
         pl, main_last_l, junk_l = parse_trace(se_l, facts, ids)
         pg, main_last_g, junk_g = parse_trace(se_g, facts, ids)
         nlines += len(pl)
         replay = {"seed": ck.seed, "program": r["i"], "mode": facts["mode"], "files": r["files"],
-                  "llgo_trace": se_l.splitlines(), "go_trace": se_g.splitlines()}
+                  "llgo_trace": full_l, "go_trace": full_g}
         if rcg != 0 or junk_g or not main_last_g or oracle(pg, facts, ids):
             ck.correspondence_broken("reference-trace", {"i": r["i"], "rc": rcg, "junk": junk_g[:5], "oracle": oracle(pg, facts, ids)[:3]})
             continue
@@ -334,11 +353,56 @@ def run(ck):
                 ck.violation("order-inside-package-differs-from-go", "package %s: llgo and go print a different order" % p["name"], replay)
         if [a for a, _ in pl] != [a for a, _ in pg]:
             differs_from_go_order += 1
+        if facts["mode"] == "embed":
+            # every initialiser and init function of a package (and of its importers) sees the embedded files
+            if len(emb_g) != 8 or any(l.split()[3:] not in (["2", "6"], ["2", "2"]) for l in emb_g):
+                ck.correspondence_broken("reference-embed-observations", {"i": r["i"], "go": emb_g})
+            elif emb_l != emb_g:
+                bad = [l for l in emb_l if l not in emb_g] or [l for l in emb_g if l not in emb_l]
+                ck.violation("embedded-files-not-ready-when-package-initialisers-run",
+                             "llgo prints `%s`; go prints %s (a go:embed embed.FS variable must be set before any variable initialiser "
+                             "or init function of its package runs)" % (bad[0], [l for l in emb_g if l.split()[1:3] == bad[0].split()[1:3]]), replay)
+            classes["embed-observations"] += len(emb_l)
+        if facts.get("observers"):
+            # every initialiser / init function / main.main sees what runtime.init established (and, in
+            # main.main, what main's init stored): the reference toolchain's values are the oracle
+            want = {(o[1], o[2]): o[3] for o in obs_g if len(o) == 4}
+            sane = len(want) == 2 * len(facts["observers"]) + 1 and want.get(("main", "main.main")) == "4096" and \
+                all(v == "524288" for k, v in want.items() if k != ("main", "main.main"))
+            if not sane:
+                ck.correspondence_broken("reference-observations", {"i": r["i"], "go": obs_g})
+            else:
+                got = {(o[1], o[2]): o[3] for o in obs_l if len(o) == 4}
+                for k in sorted(want):
+                    if got.get(k) != want[k]:
+                        ck.violation("runtime-package-not-initialised-before-its-importers",
+                                     "runtime.MemProfileRate read in %s of package %s is %s under llgo, %s under go (runtime.init must run before "
+                                     "every package that imports runtime, and only once)" % (k[1], k[0], got.get(k), want[k]), replay)
+                        break
+                byname = {p["name"]: p for p in facts["packages"]}
+                opk = [n for n in facts["observers"]]
+                seen_ready = [all(v == "524288" for (pn, site), v in got.items() if pn == n and site != "main.main") for n in opk]
+                rt_terms.append("((%s, (%d, %d), %s), [%s])" % (gterm, ids["runtime"], main_id,
+                                                              coq_nats([ids[byname[n]["path"]] for n in opk]), "; ".join(coq_bool(b) for b in seen_ready)))
+                rt_raw.append(replay)
+                classes["runtime-state-observations"] += len(got)
         pairs = lambda ps: "[" + "; ".join("(%d,%d)" % x for x in ps) + "]"
         e2e_terms.append("((%s, [%d], %s), %s)" % (gterm, main_id, bterm, pairs(pl)))
         e2e_raw.append(replay)
         sorted_ids = [ids[k] for k in sorted(ids)]
-        go_terms.append("((%s, %s, %s), %s)" % (gterm, coq_nats(sorted_ids), bterm, pairs(pg)))
+        # which packages have initialisation work of their own (std: known to have init tasks or not)
+        std_work = {"sync": True, "reflect": True, "fmt": True, "runtime": True, "embed": True, "sync/atomic": False, "unsafe": False}
+        byid = {v: k for k, v in ids.items()}
+        fp = {p["path"]: p for p in facts["packages"]}
+        work = []
+        for k in range(len(ids)):
+            path = byid[k]
+            if path in fp:
+                q = fp[path]
+                work.append(q["nvars"] + q["ninits"] > 0 or q.get("kind") == "embed" or q["name"] in facts.get("observers", []))
+            else:
+                work.append(std_work.get(path, True))
+        go_terms.append("(((%s, [%s]), %s, %s), %s)" % (gterm, "; ".join(coq_bool(w) for w in work), coq_nats(sorted_ids), bterm, pairs(pg)))
         go_raw.append(replay)
         # entry function of the linked binary
         calls = r.get("entry_calls", [])
@@ -354,6 +418,18 @@ def run(ck):
             if f and f != "-":
                 fns = split_functions(open(f).read())
                 sk, why = init_skeleton(fn, fns[fn]) if fn in fns else (None, "no init function")
+            if sk and p.get("kind") == "embed":
+                # the embedded file system is stored before the guard store, hence before every initialiser and init function
+                var = '@"%s.assets"' % p["path"]
+                st = [k for k, i in enumerate(fns[fn]) if re.search(r"store .*ptr %s," % re.escape(var), i)]
+                first_use = [k for k, i in enumerate(fns[fn]) if re.search(r'call .*@"%s\.(cnt|init#\d+)"' % re.escape(p["path"]), i)]
+                gpos = [k for k, i in enumerate(fns[fn]) if "store i1 true" in i]
+                if not st or not first_use or not gpos or not (st[0] < gpos[0] < first_use[0]):
+                    ck.correspondence_broken("embed-variable-initialised-after-package-code",
+                                             {"program": r["i"], "package": p["path"], "store_at": st[:1], "guard_store_at": gpos[:1], "first_package_code_at": first_use[:1]})
+                classes["embed-prologue"] += 1
+            if sk:
+                sk = {k: v for k, v in sk.items() if k != "body"}
             sk_terms.append("((%s, FInit %d), %s)" % (gterm, ids[p["path"]], coq_skel(sk, ids, "EMain %d" % ids[p["path"]])))
             sk_raw.append({"program": r["i"], "package": p["path"], "imports": p["imports"], "skeleton": sk, "why": why,
                            "files": {k: v for k, v in r["files"].items() if (k.rsplit("/", 1)[0] if "/" in k else "") == p["path"][len("verifprog/"):]}})
@@ -402,10 +478,13 @@ def run(ck):
     comps = [
         ("e2e", e2e_terms, "(fun x => predict (fst (fst x)) (snd (fst x)) (snd x))", "pairs_eqb", e2e_raw,
          lambda rw: ck.violation("trace-is-not-postorder", "llgo trace differs from the model's post-order prediction", rw, found=True)),
-        ("goref", go_terms, "(fun x => predict_go (fst (fst x)) (snd (fst x)) (snd x))", "pairs_eqb", go_raw,
+        ("goref", go_terms, "(fun x => predict_go (fst (fst (fst x))) (snd (fst (fst x))) (snd (fst x)) (snd x))", "pairs_eqb", go_raw,
          lambda rw: ck.correspondence_broken("C12.Model/go121_order vs reference trace", {"program": rw["program"], "go_trace": rw["go_trace"][:40]})),
         ("skel", sk_terms, "(fun x => compile (fst x) (snd x))", "(option_eqb skel_eqb)", sk_raw,
          lambda rw: ck.correspondence_broken("C12.Model/compile vs IR skeleton", rw)),
+        ("rtready", rt_terms, "(fun x => rt_ready (fst (fst x)) (fst (snd (fst x))) (snd (snd (fst x))) (snd x))", "(list_eqb Bool.eqb)", rt_raw,
+         lambda rw: ck.violation("runtime-package-not-initialised-before-its-importers",
+                                 "observed readiness of the runtime package differs from the model (runtime tree first, then main's tree)", rw)),
         ("entry", ent_terms, "(fun x => entry_code (fst (fst x)) (snd (fst x)) (snd x) 0)", "(list_eqb top_eqb)", [c[2] for c in entry_cases],
          lambda rw: ck.correspondence_broken("C12.Model/entry_code vs entry function", rw)),
     ]
